@@ -8,7 +8,7 @@ from qsim import plan as P
 from qsim.core import Run, close
 
 PROP = "C13"
-QUICK_RUNS = 4800
+QUICK_RUNS = 4000
 RULE = (
     "one case = one model and a history of 2-5 operations: ObservableBase.statistics / System.statistics with "
     "(num_samples, num_chains incl. 0, 1, >num_samples, non-divisors; burn_in, steps >= 0; user-provided initial chains "
@@ -68,10 +68,16 @@ def generate(seed, tier):
             continue
         ns = r.choice([1, 2, 3, 5, 7, 10, 16, 25, 40])
         nc = r.choice([0, 0, 1, 1, 2, 3, 4, 7, ns, ns + 3])
-        if r.random() < 0.04:
+        x4 = r.random()
+        if x4 < 0.04:
             # occasionally very many samples / chains (large blocks)
             ns = r.choice([1000, 4097, 5000, 10007])
             nc = r.choice([0, 0, 4097, 5000, 3])
+        elif x4 < 0.05:
+            ns, nc = 100001, 50000  # products of lengths beyond 2**31
+        elif x4 < 0.0515 and scfg["nv"] <= 2:
+            nc = 2000000
+            ns = nc + r.choice([1, 2, nc])  # a remainder that is tiny relative to the chain count
         op = {
             "op": "sys_stats" if m > 0.65 else "obs_stats",
             "num_samples": ns,
@@ -81,14 +87,19 @@ def generate(seed, tier):
             "sub": P.s64(r),
             "mode": r.choice(["honest", "honest", "rare"]),
             "positional": r.random() < 0.3,
+            "int_type": r.choice(["int", "int", "int", "np_int32", "np_int64"]),
         }
-        if r.random() < 0.3:
+        if r.random() < 0.3 and ns < 100000:
             op["init_rows"] = r.choice([1, 2, 3, 5])
             op["init_dtype"] = r.choice(["double", "double", "float", "long"])
             op["init_seed"] = P.s64(r)
             op["overwrite"] = r.random() < 0.5
         cheap = ns >= 1000
+        if ns >= 100000:
+            op["burn_in"], op["steps"] = r.choice([0, 1]), r.choice([0, 1])
         pool = ["Z", "Zabs", "NN", "user", "const", "Z-0.5", "negZ", "view", "1e7+Z"] if cheap else OBS
+        if ns >= 100000:
+            pool = ["Z", "const", "view"]
         if op["op"] == "sys_stats":
             k = r.randint(1, 4)
             op["obs"] = r.sample(pool, min(k, len(pool)))
@@ -351,9 +362,11 @@ def execute(plan):
                 init = torch.tensor(g.integers(0, 2, size=(op["init_rows"], nv)).astype(np.float64)).to(idt)
                 init_copy = init.clone()
             ns, nc = op["num_samples"], op["num_chains"]
+            ity = {"np_int32": np.int32, "np_int64": np.int64}.get(op.get("int_type"))
+            ns_arg, nc_arg = (ity(ns), ity(nc)) if ity else (ns, nc)
             chains = op["init_rows"] if init is not None else (min(nc, ns) if nc != 0 else ns)
             want_draws = -(-ns // chains)
-            kwargs = dict(num_samples=ns, num_chains=nc, burn_in=op["burn_in"], steps=op["steps"])
+            kwargs = dict(num_samples=ns_arg, num_chains=nc_arg, burn_in=op["burn_in"], steps=op["steps"])
             if init is not None:
                 kwargs.update(initial_state=init, overwrite=op.get("overwrite", False))
             rng.stream(op["sub"], mode=op["mode"], rare=0.1)
@@ -368,7 +381,7 @@ def execute(plan):
                         res = system.statistics(state, **kwargs)
                     else:
                         if op.get("positional"):
-                            res = {obs[0].name: obs[0].statistics(state, ns, nc, op["burn_in"], op["steps"], init, op.get("overwrite", False))}
+                            res = {obs[0].name: obs[0].statistics(state, ns_arg, nc_arg, op["burn_in"], op["steps"], init, op.get("overwrite", False))}
                         else:
                             res = {obs[0].name: obs[0].statistics(state, **kwargs)}
                 except Exception as exc:  # noqa: BLE001
